@@ -138,3 +138,8 @@ PROPS['C09'] = dict(level='model_checking',
   bounds='sequential: one spawn_future over a v2 scope and a manual leaf; every order of 3 events out of {leaf completes, await, stop, drop} enumerated (64 plans); leaf outcome (value/done) enumerated, payload symbolic',
   outside='error completions of the spawned operation (engine limit in the exception_ptr model); instruction-level races between completion and future start/drop; v1 scope futures; spawn_detached termination; allocation faults during spawn',
   harnesses=[SEQ('future_plan_%02d_o%d' % (p, o), 'C09_future.cpp', 'h_future', exc=True, opts=dict(params=[p, o], max_visits=200), desc='spawn_future event plan %d (base-4 digits: 0 complete, 1 await, 2 stop, 3 drop), leaf outcome %s' % (p, 'value' if o == 0 else 'done')) for p in range(64) for o in (0, 2)])
+
+PROPS['C11'] = dict(level='model_checking',
+  bounds='sequential; contexts are ghost ids set by harness schedulers; leaf outcome and target context symbolic; trait soundness over 7 sender shapes',
+  outside='task<> affinity (coroutines not built); contexts backed by real threads; async_mutex/async_pass senders',
+  harnesses=[SEQ('ctx_' + n, 'C11_ctx.cpp', 'h_' + n, desc=n) for n in ['via', 'typed_via', 'on', 'event_affine', 'traits_just', 'traits_then', 'traits_let', 'traits_seq', 'traits_finally', 'traits_sched', 'traits_done']])
